@@ -11,7 +11,7 @@ RESULTS = {
     "C09-bilinearity-and-instead-of-or": ("C09", [("C09", "quick", "VIOLATION", "kani vk_lat alg::n2::bilinearity_ clause C09:bilinearity_ok_iff_law")]),
     "C11-zip-longest-left-ended-right-pending": ("C11", [("C11", "quick", "VIOLATION", "kani ov_pipes pull::zip_longest::vk_harness::zip_longest_step clause C11:zip_longest_ends_iff_both_ended_and_nothing_buffered")]),
     "C11-cross-singleton-item-lost-on-singleton-pending": ("C11", [("C11", "quick", "VIOLATION", "kani ov_pipes pull::cross_singleton::vk_harness::cross_singleton_step clause C11:cross_singleton_no_items_consumed_before_singleton")]),
-    "C12-fold-keyed-refinalize-duplicates": ("C12", [("C12", "quick", "missed", "FoldKeyed is only in the thorough tier (real std HashMap, one key, ~100 s per harness)"),
+    "C12-fold-keyed-refinalize-duplicates": ("C12", [("C12", "quick", "missed", "first rounds: FoldKeyed was only in the thorough tier (real std HashMap, one key, ~100 s per harness); the quick tier runs it now and reports the same VIOLATION"),
                                                      ("C12", "thorough", "VIOLATION", "kani ov_pipes push::fold_keyed::vk_slow::fold_keyed_finalize_history_trace clause C12:never_sends_after_finalizing")]),
     "C13-join-probe-before-build-duplicates": ("C13", [("C13", "quick", "VIOLATION", "kani ov_pipes symmetric_hash_join_history_set_trace clause C13:emitted_plus_queued_equals_join_size")]),
     "C14-lazy-sink-first-item-lost-on-pending": ("C14", [("C14", "quick", "VIOLATION", "kani ov_sink lazy::vk_harness::lazy_sink_step clause C14:lazy_sink_first_item_kept_until_delivered")]),
@@ -35,7 +35,7 @@ RESULTS = {
     "C11-cross-singleton-item-pulled-before-singleton": ("C11", [("C11", "quick", "VIOLATION", "kani ov_pipes cross_singleton_step clause C11:cross_singleton_no_items_consumed_before_singleton")]),
     "C11-zip-size-hint-buffer-on-wrong-side": ("C11", [("C11", "quick", "VIOLATION", "kani ov_pipes pull::zip::vk_harness::zip_size_hint clause C11:zip_size_hint_brackets_remaining")]),
     "C12-persist-replay-index-advanced-before-ready": ("C12", [("C12", "quick", "VIOLATION", "kani ov_pipes push::persist::vk_harness::persist_push_ready_loop clause C12:persist_replay_index_counts_replayed_items")]),
-    "C12-fold-keyed-flush-marker-reset-on-pending-finalize": ("C12", [("C12", "quick", "missed", "FoldKeyed is only in the thorough tier (real std HashMap, one key)"),
+    "C12-fold-keyed-flush-marker-reset-on-pending-finalize": ("C12", [("C12", "quick", "VIOLATION", "(since FoldKeyed moved into the quick tier) same obligation as thorough"),
                                                                       ("C12", "thorough", "VIOLATION", "kani ov_pipes push::fold_keyed::vk_slow::fold_keyed_finalize_history_trace clause C12:never_sends_after_finalizing")]),
     "C14-flat-map-pair-taken-before-ready": ("C14", [("C14", "quick", "VIOLATION", "kani ov_sink flat_map_sink_drain_loop clause C14:flat_map_buffer_empty_only_after_everything_was_delivered")]),
     "C14-unzip-ready-when-only-one-sink-ready": ("C14", [("C14", "quick", "VIOLATION", "kani ov_sink unzip::vk_harness::unzip_sink_step clause C14:unzip_ready_iff_both_ready")]),
